@@ -62,6 +62,22 @@ def graft_dead(rng, c):
                 g.add_edge(nm, nm + "b")
                 g.add_edge(rng.choice(live), nm + "b")
         k += 1
+    if c.blackboxes and rng.random() < 0.5:
+        # a flop whose data output is observed by nobody: its buffer is unloaded, or feeds dead logic only
+        import circuitgraph as cg
+
+        c.blackboxes["fd"] = cg.BlackBox("ff", ["clk", "d"], ["q"])
+        g.add_node("fd.clk", type="bb_input", output=False)
+        g.add_node("fd.d", type="bb_input", output=False)
+        g.add_node("fd.q", type="bb_output", output=False)
+        g.add_edge(rng.choice(live), "fd.d")
+        if "clk" in g:
+            g.add_edge("clk", "fd.clk")
+        g.add_node("fdq", type="buf", output=False)
+        g.add_edge("fd.q", "fdq")
+        if rng.random() < 0.5:
+            g.add_node("fdq_dead", type="not", output=False)
+            g.add_edge("fdq", "fdq_dead")
     return c
 
 
